@@ -170,6 +170,10 @@ func ExtractMysqlComment(sql string) (version string, innerSQL string) {
 		digitCount++
 		return !unicode.IsDigit(c) || digitCount == 6
 	})
+	if endOfVersionIndex < 0 {
+		// nothing but (fewer than six) version digits, or nothing at all, e.g. /*!*/ or /*!12345*/
+		endOfVersionIndex = len(sql)
+	}
 	version = sql[0:endOfVersionIndex]
 	innerSQL = strings.TrimFunc(sql[endOfVersionIndex:], unicode.IsSpace)
 
